@@ -215,6 +215,8 @@ pub struct Src {
     pub cb_this_dispatch: u32,
     pub pe_this_dispatch: u32,
     pub excused: bool,
+    /// the source was enabled (registered) when it was removed in / at the end of its own event
+    pub enabled_when_removed: bool,
     /// reregister() calls seen when the dispatch started
     pub rereg_at_start: u32,
     /// the token this source holds was issued by a loop that has been dropped
